@@ -80,8 +80,17 @@ def main():
         print(json.dumps(res)); return 1
     c, o = sh("git -C /repo apply %s" % patch)
     if c != 0:
-        res["error"] = "patch does not apply to /repo: " + o[-300:]
-        print(json.dumps(res)); return 1
+        # /repo carries the fix: commits, the patch was made against the pinned commit: retry with less context
+        c, o2 = sh("git -C /repo apply -C1 %s" % patch)
+        res["applied_with"] = "git apply -C1 (context reduced: /repo has fix commits on top of the pinned commit)"
+        if c != 0:
+            sh("git -C /repo checkout -- .")
+            c, o3 = sh("cd /repo && patch -p1 -F3 --no-backup-if-mismatch < %s" % patch)
+            res["applied_with"] = "patch -p1 -F3"
+            if c != 0:
+                sh("git -C /repo checkout -- . && git -C /repo clean -fdq -e tests/lib/muinstaller")
+                res["error"] = "patch does not apply to /repo: " + o[-300:]
+                print(json.dumps(res)); return 1
     try:
         checks = {}
         for p in props:
@@ -99,7 +108,7 @@ def main():
         for f in os.listdir(out):
             if os.path.isfile(os.path.join(out, f)) and os.path.getsize(os.path.join(out, f)) < 200000:
                 shutil.copy(os.path.join(out, f), dst)
-        meta["verification"] = {k2: res.get(k2) for k2 in ("demo_clean_exit", "demo_patched_exit", "existing_tests_patched", "confirmed", "caught_by", "checks")}
+        meta["verification"] = {k2: res.get(k2) for k2 in ("demo_clean_exit", "demo_patched_exit", "existing_tests_patched", "confirmed", "caught_by", "checks", "applied_with")}
         meta["what_was_run"] = "tools/seedverify.py %s %s: demo on clean worktree (exit %s), demo with patch (exit %s), existing tests of touched stable packages with patch, then `git -C /repo apply`, quick checks %s, `git -C /repo checkout -- .`" % (prop, k, res.get("demo_clean_exit"), res.get("demo_patched_exit"), ",".join(props))
         json.dump(meta, open(dst + "/meta.json", "w"), indent=1)
     return 0
